@@ -46,7 +46,8 @@ Definition row_game (labels : list Z) (owner : list nat) (dist ucols : list (lis
           match best_present_row owner (nthQ dj) oj m with
           | Some r => nthQ uj (encode_label labels (nth r labels 0%Z))
           | None => nullj end)
-       (combine (combine (combine dist ucols) nulls) orders) / qn (length orders).
+       (combine (combine (combine dist ucols) nulls) orders)
+  / qn (length (combine (combine (combine dist ucols) nulls) orders)).
 
 Definition spec_scores (c : case) (orders : list (list nat)) : list Q :=
   map (shapley (c_n c) (row_game (c_labels c) (c_owner c) (c_dist c) (c_ucols c) (c_nulls c) orders)) (seq 0 (c_n c)).
